@@ -376,7 +376,10 @@ def showBaud (b : Baud) : String :=
 def showSettings (s : PortSettings) : String :=
   s!"{showBaud s.baud},{(charSizes.findIdx? (· == s.charSize)).getD 99},{(parities.findIdx? (· == s.parity)).getD 99},{(stops.findIdx? (· == s.stopBits)).getD 99},{(flows.findIdx? (· == s.flow)).getD 99}"
 
-def parseSettings (s : String) : Option PortSettings :=
+def parseSettings (s0 : String) : Option PortSettings :=
+  -- a leading `n`: the device's settings object cannot name its current state (its getters return None); what the
+  -- port ends up with does not depend on that — every field is written unconditionally
+  let s := if s0.startsWith "n" then (s0.drop 1).toString else s0
   match s.splitOn "," with
   | [b, c, p, st, f] => do
     pure ⟨← parseBaud b, ← charSizes[← c.toNat?]?, ← parities[← p.toNat?]?, ← stops[← st.toNat?]?, ← flows[← f.toNat?]?⟩
@@ -580,6 +583,11 @@ def handle (line : String) : String :=
       | [ms, rd, wr] =>
         let r := serialMultiCase false (← ms.mapM parseMsg) (← parseREvents rd) (← parseWEvents wr)
         pure (if wr.contains "F" then r ++ " [flush-fails]" else r)
+      | _ => none
+  | "serialmtu" :: rest => orBad do
+      -- the same exchanges made while the calling thread is unwinding from a panic: nothing changes
+      match splitBar rest with
+      | [ms, rd, wr] => pure (serialMultiCase true (← ms.mapM parseMsg) (← parseREvents rd) (← parseWEvents wr))
       | _ => none
   | "serialmte" :: _wms :: _rms :: rest => orBad do
       match splitBar rest with
